@@ -17,6 +17,7 @@ namespace Reflect
 inductive Op where
   | const (c : Int)
   | add (a b : Nat)
+  | addA (a b : Nat)                      -- a + b whose no-overflow is a named side obligation
   | sub (a b : Nat)
   | mul (a b : Nat)
   | shl (a k : Nat) (q : Option Nat)      -- a << k   (q: variable holding a >> (64-k), unsigned wrap case)
@@ -56,6 +57,7 @@ def cget (tr : List Int) (n i : Nat) : Int := tr.getD (n - 1 - i) 0
 def evalOp (mach signed : Bool) (g : Nat → Int) : Op → Int
   | .const c => if mach then wrap signed c else c
   | .add a b => if mach then wrap signed (g a + g b) else g a + g b
+  | .addA a b => if mach then wrap signed (g a + g b) else g a + g b
   | .sub a b => if mach then wrap signed (g a - g b) else g a - g b
   | .mul a b => if mach then wrap signed (g a * g b) else g a * g b
   | .shl a k _ =>
@@ -191,6 +193,16 @@ def astep (signed : Bool) (env : List AV) (n : Nat) : Op → Option AV
       let lo := x.lo + y.lo; let hi := x.hi + y.hi
       if inRange signed lo hi then some ⟨lo, hi, min x.tz y.tz, padd x.poly y.poly, .none⟩ else none
     else none
+  | .addA a b =>
+    -- like `add`, but when the interval cannot exclude overflow the result is clamped and the
+    -- no-overflow fact becomes a side obligation of the soundness theorem (`SideOK`)
+    if a < n ∧ b < n then
+      let x := aget env n a; let y := aget env n b
+      let lo := x.lo + y.lo; let hi := x.hi + y.hi
+      if inRange signed lo hi then some ⟨lo, hi, min x.tz y.tz, padd x.poly y.poly, .none⟩
+      else if inRange signed lo lo then some ⟨lo, maxV signed, min x.tz y.tz, padd x.poly y.poly, .none⟩
+      else none
+    else none
   | .sub a b =>
     if a < n ∧ b < n then
       let x := aget env n a; let y := aget env n b
@@ -242,8 +254,16 @@ def astep (signed : Bool) (env : List AV) (n : Nat) : Op → Option AV
       if 0 ≤ x.lo ∧ x.hi < 2 ^ k then some ⟨x.lo, x.hi, x.tz, x.poly, .none⟩
       else
         let p : Poly := match q with
-          | some q' => if q' < n ∧ (aget env n q').prov = .shr a k
-              then psub x.poly (pscale (2 ^ k) (patom q')) else patom n
+          | some q' =>
+            if q' < n ∧ (aget env n q').prov = .shr a k
+            then psub x.poly (pscale (2 ^ k) (patom q'))
+            else
+              -- nested shifts are normalised by the translator: a = a₀ >> k₀ and q' = a₀ >> (k₀+k)
+              (match x.prov with
+               | .shr a0 k0 =>
+                 if q' < n ∧ (aget env n q').prov = .shr a0 (k0 + k)
+                 then psub x.poly (pscale (2 ^ k) (patom q')) else patom n
+               | _ => patom n)
           | Option.none => patom n
         some ⟨0, 2 ^ k - 1, 0, p, .none⟩
     else none
@@ -336,7 +356,8 @@ def arun (signed : Bool) : List Op → List AV → Nat → Option (List AV)
 structure Cfg where
   inLo : List Int
   inHi : List Int
-  outLo : List Int          -- claimed bounds of the outputs (same length as outs)
+  obs : List Nat            -- observed variables (usually the program outputs; any variables may be observed)
+  outLo : List Int          -- claimed bounds of the observed variables (same length as obs)
   outHi : List Int
   weights : List Int        -- Σ weights_k · out_k
   spec : Poly               -- over input atoms
@@ -374,10 +395,23 @@ def check (P : Prog) (cfg : Cfg) : Bool :=
   | none => false
   | some env =>
     let n := P.nIn + P.body.length
-    outsOk env n P.outs cfg.outLo cfg.outHi &&
-    cfg.weights.length == P.outs.length &&
+    outsOk env n cfg.obs cfg.outLo cfg.outHi &&
+    cfg.weights.length == cfg.obs.length &&
     specAtomsOk P.nIn cfg.spec &&
-    allDiv cfg.modulus (psub (weighted env n P.outs cfg.weights) cfg.spec)
+    allDiv cfg.modulus (psub (weighted env n cfg.obs cfg.weights) cfg.spec)
+
+/-- the abstract environment computed by a successful check (exported by the soundness theorem) -/
+def absEnv (P : Prog) (cfg : Cfg) : Option (List AV) :=
+  arun P.signed P.body (initEnv cfg.inLo cfg.inHi) P.nIn
+
+/-- operands of the `addA` ops: the side obligations of a program -/
+def sideOps : List Op → List (Nat × Nat)
+  | [] => []
+  | .addA a b :: rest => (a, b) :: sideOps rest
+  | _ :: rest => sideOps rest
+
+/-- the same program cut after its first `k` ops (for establishing facts that discharge side obligations) -/
+def Prog.take (P : Prog) (k : Nat) : Prog := { P with body := P.body.take k }
 
 /-- diagnostic: index of the first op on which the abstract run fails (for the search step) -/
 def firstFail (signed : Bool) : List Op → List AV → Nat → Option Nat
